@@ -69,6 +69,8 @@ class Gen:
           readFE_nb) and ends with a filling call; everybody else only waits for full (readFF), fills, or incrF's
       MU  mutex: readFE ... fill/writeF/writeEF pairs with nothing blocking in between (no incrF: it would fill the
           variable behind the holder's back when a second locker waits)
+      WO  overwrite: starts full, k writers block in writeEF, one owner overwrites (writeF, the variable is full in that phase)
+          and then consumes k times
       RC  reader churn: CH1 that starts empty and ends full, one consumer, 1-2 producers, every other task polls with readFF
       CT  counter: everybody incrF's, readers readFF; when the counter starts empty one owner ends with fill (incrF fills an
           empty variable only if a reader already waits, so without that fill readers arriving late would wait for ever)
@@ -133,16 +135,39 @@ class Gen:
         r = self.rng
         nt, K = self.nt, self.K
         for w in range(K):
-            kind = r.weighted([("CH", 4), ("CH1", 3), ("BC", 5), ("MU", 2), ("CT", 5), ("RC", 4)])
+            kind = r.weighted([("CH", 4), ("CH1", 3), ("BC", 5), ("MU", 2), ("CT", 5), ("RC", 4), ("WO", 3)])
             if self.force:
                 kind = self.force
-            if nt < 3 and kind in ("CH", "CH1", "RC"):
+            if nt < 3 and kind in ("CH", "CH1", "RC", "WO"):
                 kind = "BC"
             init_full = r.below(2)
             init_val = self.v()
             W = {"kind": kind, "init_full": init_full, "init_val": init_val, "final_full": 1}
             part = r.shuffle(list(range(nt)))[: max(2, r.range(2, max(2, min(nt, 4 + nt // 2))))]
-            if kind == "RC":
+            if kind == "WO":
+                # overwrite under blocked writers: starts full; k writers each deposit once with writeEF (they block: the variable
+                # is full); ONE owner first overwrites with writeF / fill / incrF - nobody but the owner ever empties the variable,
+                # so it is full during this phase and no token is added - and then consumes exactly k times with readFE (1 + k
+                # tokens, k slots): ends full.  writeF meets state "full with waiters" here (the defect repaired by /repo 1091148).
+                W["init_full"] = init_full = 1
+                order = r.shuffle(list(range(nt)))
+                k = r.range(1, max(1, min(6, nt - 1)))
+                owner, writers = order[0], order[1:1 + k]
+                for _ in range(r.range(0, 3)):
+                    self.seg[owner][w].append(("status", w, 0, 0, "own"))
+                for _ in range(r.range(1, 4)):
+                    c = r.weighted([("writeF", 6), ("fill", 1), ("incrF", 1), ("status", 2)])
+                    if c == "incrF":
+                        self.seg[owner][w].append(self.incr(w, False, "own"))
+                    else:
+                        self.seg[owner][w].append((c, w, self.wdm() if c == "writeF" else 0, self.v() if c == "writeF" else 0, "own"))
+                for _ in range(len(writers)):
+                    self.seg[owner][w].append((r.weighted([("readFE", 4), ("readFE_nbf", 1)]), w, r.below(2), 0, "own"))
+                for t in writers:
+                    self.seg[t][w].append((r.weighted([("writeEF", 5), ("writeEF_nbf", 1)]), w, self.wdm(), self.v(), "tok"))
+                    self.role[t][w] = "pc"
+                self.role[owner][w] = "own"
+            elif kind == "RC":
                 # reader churn (an instance of CH1): starts empty, ends full; ONE consumer (plain readFE), 1-2 producers, and every
                 # other task polls with several blocking readFF calls.  Each deposit finds exactly one readFE waiter and many readFF
                 # waiters: it publishes 'empty', releases them all and removes the record - while fresh readFF calls arrive.
@@ -605,6 +630,41 @@ LIN_TXT = ("V%d: no linearisation of its %d logged calls exists that respects th
            "cell with the observed result and ends in the audited state (full=%d, value=%d) [proved: svhist_reject_complete]")
 
 
+STATS = {"incrF_filled_for_waiters": 0, "incrF_on_empty_kept_empty": 0}
+
+
+def count_incr_fills(c0, lines, wit):
+    """walk the accepted linearisation (ids in `wit`) over the cell and count the incrF calls on an EMPTY variable, split by
+    whether the next call is a waiting reader (blocking read invoked before the incrF returned: the incrF filled the variable)"""
+    byid = {}
+    for l in lines:
+        f = l.split()
+        byid[int(f[0])] = f
+    full, val = c0
+    seq = [byid[i] for i in wit if i in byid]
+    for k, f in enumerate(seq):
+        op, arg, nb, out = f[1], f[2], f[3], f[6]
+        if out in ("F", "O"):
+            continue
+        if op == "incrF":
+            val = (val + int(arg)) & M60
+            if not full:
+                nxt = seq[k + 1] if k + 1 < len(seq) else None
+                if nxt is not None and nxt[1] in ("readFF", "readFE") and nxt[3] == "0" and nxt[6] not in ("F", "O") and int(nxt[4]) < int(f[5]):
+                    STATS["incrF_filled_for_waiters"] += 1
+                    full = 1
+                else:
+                    STATS["incrF_on_empty_kept_empty"] += 1
+        elif op == "readFE":
+            full = 0
+        elif op in ("writeEF", "writeF"):
+            full, val = 1, int(arg)
+        elif op == "fill":
+            full = 1
+        elif op == "empty":
+            full = 0
+
+
 def judge(acc, sc, run, tag):
     """-> (verdict, reasons, unknown) verdict in ok / reject / hang / unknown"""
     H, desc, problems = histories(sc, run)
@@ -618,12 +678,16 @@ def judge(acc, sc, run, tag):
                 continue
             full = 1 if a["state"] < 2 else 0
             v, wit = acc.ask("%s.v%d" % (tag, w), (W["init_full"], W["init_val"]), (full, a["data"]), H[w])
+            if v == "U":        # fuel exhausted: once more with ten times the fuel (the verdicts A and R do not depend on the fuel)
+                v, wit = acc.ask("%s.v%d.more" % (tag, w), (W["init_full"], W["init_val"]), (full, a["data"]), H[w], fuel=10 * FUEL)
             if v == "R":
                 reasons.append(LIN_TXT % (w, len(H[w]), full, a["data"]))
             elif v == "U":
                 unknown += 1
             elif v != "A":
                 reasons.append("V%d: ill-formed log (%s)" % (w, v))
+            elif any(" incrF " in l for l in H[w]):
+                count_incr_fills((W["init_full"], W["init_val"]), H[w], wit)
         if reasons:
             return "reject", reasons, unknown
         return ("unknown" if unknown else "ok"), reasons, unknown
@@ -691,10 +755,13 @@ def drop_call(sc, ti, k):
 
 
 # ---------------------------------------------------------------- the tier
-AIMED_REPS_QUICK = int(os.environ.get("VERIF_FREE_REPS", "0")) or 16
-AIMED_REPS_THOROUGH = int(os.environ.get("VERIF_FREE_REPS", "0")) or 24
-CONFIGS_QUICK = [(2, 2), (4, 1), (1, 4), (3, 2)]
-CONFIGS_THOROUGH = [(2, 2), (4, 1), (1, 4), (3, 2), (8, 1), (2, 4), (1, 1)]
+# (shepherds, workers per shepherd, scripts, repetitions of every aimed script).  The last two of each list have more worker
+# pthreads than this machine has free cores: the OS then preempts workers inside the windows the finer tiers can only reach
+# with a baton (measured on the mutant that reverts /repo 8cdc001: hit within the first runs on 4x8, once in ~1000 runs on 2x2).
+CONFIGS_QUICK = [(2, 2, 24, 4), (4, 1, 24, 4), (1, 4, 24, 4), (3, 2, 24, 4), (4, 8, -6, 6), (8, 4, -10, 6)]
+CONFIGS_THOROUGH = [(2, 2, 120, 8), (4, 1, 120, 8), (1, 4, 120, 8), (3, 2, 120, 8), (8, 1, 120, 8), (2, 4, 120, 8), (1, 1, 60, 2),
+                    (4, 8, 30, 6), (8, 4, 45, 8), (4, 8, -20, 10), (8, 4, -30, 12)]
+# (a negative script count: that many scripts, ALL of them aimed reader-churn scripts)
 
 
 def build(ctx):
@@ -711,31 +778,35 @@ def run_free(ctx, quick):
     exe, drv = build(ctx)
     acc = Acceptor(drv)
     configs = CONFIGS_QUICK if quick else CONFIGS_THOROUGH
-    if os.environ.get("VERIF_FREE_CONFIGS"):
-        configs = [tuple(int(x) for x in c.split("x")) for c in os.environ["VERIF_FREE_CONFIGS"].split(",")]
-    nruns = int(os.environ.get("VERIF_FREE_RUNS", "0")) or (96 if quick else 840)
-    per = max(1, nruns // len(configs))
-    cov = {"runs": 0, "configs": ["%dx%d" % c for c in configs], "calls": 0, "ops": {}, "blocked_calls": 0, "nb_failed": 0, "overflow_rejected": 0,
+    if os.environ.get("VERIF_FREE_CONFIGS"):         # e.g. 4x8 or 4x8:30:6 (scripts, repetitions of the aimed ones)
+        configs = []
+        for c in os.environ["VERIF_FREE_CONFIGS"].split(","):
+            f = c.split(":")
+            a, b = f[0].split("x")
+            configs.append((int(a), int(b), int(f[1]) if len(f) > 1 else 24, int(f[2]) if len(f) > 2 else 4))   # scripts < 0: aimed only
+    cov = {"runs": 0, "configs": ["%dx%d" % c[:2] for c in configs], "aimed_runs": 0, "calls": 0, "ops": {}, "blocked_calls": 0, "nb_failed": 0, "overflow_rejected": 0,
            "overlap_pairs": 0, "max_overlap_pairs_in_one_run": 0, "tasks": [10 ** 9, 0], "accepted_vars": 0, "unknown_vars": 0,
-           "hangs": 0, "rejected_runs": 0, "var_kinds": {}, "corpus": 0, "incrF_filled_for_waiters": 0,
+           "hangs": 0, "rejected_runs": 0, "var_kinds": {}, "corpus": 0,
            "wall_runs_s": {}, "wall_acceptor_s": 0.0}
     failures = []
     corpus = load_corpus()
     try:
-        for ci, (ns, nwk) in enumerate(configs):
+        for ci, (ns, nwk, per, areps) in enumerate(configs):
             batch = []
             for fn, sc in corpus:
                 batch.append(("corpus/C03/" + fn, sc))
-            for k in range(per):
+            aimed_only = per < 0
+            for k in range(abs(per)):
                 big = (not quick) and k % 3 == 0
                 nt = rng.range(24, 64) if big else rng.range(8, 28)
                 reps = 1
-                if k % 3 == 1:
+                if aimed_only or k % 3 == 1:
                     # aimed: one reader-churn variable with many pollers (the window of the defect repaired by /repo 8cdc001: a
                     # released poller re-enters readFF while the depositing call is still releasing the others); a run costs about
                     # a millisecond, so the same script is run many times
                     sc = gen_script(rng, rng.range(32, 64), 1, ns, force="RC")
-                    reps = AIMED_REPS_QUICK if quick else AIMED_REPS_THOROUGH
+                    reps = areps
+                    cov["aimed_runs"] += reps
                 else:
                     sc = gen_script(rng, nt, rng.range(1, 4), ns)
                 why = terminates(sc, rng)
@@ -746,7 +817,7 @@ def run_free(ctx, quick):
             scripts = [(i, script_lines(sc, i)) for i, (_, sc) in enumerate(batch)]
             t_run = time.time()
             res = run_batch(exe, scripts, ns, nwk)
-            cov["wall_runs_s"]["%dx%d" % (ns, nwk)] = round(time.time() - t_run, 2)
+            cov["wall_runs_s"]["%dx%d" % (ns, nwk)] = round(cov["wall_runs_s"].get("%dx%d" % (ns, nwk), 0) + time.time() - t_run, 2)
             t_acc = time.time()
             for i, (name, sc) in enumerate(batch):
                 if i not in res:
@@ -782,6 +853,7 @@ def run_free(ctx, quick):
             report(ctx, acc, exe, rng, failures)
     finally:
         acc.close()
+    cov.update(STATS)
     ctx.cov["free"] = cov
     ctx.cov["evaluations"] = ctx.cov.get("evaluations", 0) + cov["calls"]
     ctx.cov["traces_validated_against_impl"] = ctx.cov.get("traces_validated_against_impl", 0) + cov["runs"]
@@ -821,11 +893,12 @@ def report(ctx, acc, exe, rng, failures):
                 break           # a confirmed hang: every further confirmation costs a watchdog period
     ntries = k + 1
     small = sc
-    budget = 10
+    budget = 8
+    hung = False
     if f["verdict"] == "reject":
         for ti, k in shrink_candidates(sc, rng):
-            if budget <= 0:
-                break
+            if budget <= 0 or hung:
+                break      # (a candidate that hangs costs a whole watchdog period: stop shrinking at the first one)
             budget -= 1
             cand = drop_call(small, ti, k)
             if terminates(cand, rng):
@@ -838,6 +911,7 @@ def report(ctx, acc, exe, rng, failures):
                     bad = True
                     break
                 if v == "hang":
+                    hung = True
                     break
             if bad:
                 small = cand
@@ -851,6 +925,7 @@ def report(ctx, acc, exe, rng, failures):
                   "C03 (free-running, %dx%d, %s): %s; failed again in %d of %d re-runs of the same script; %d run(s) failed in this tier"
                   % (ns, nwk, f["name"], why, again, ntries, len(failures)),
                   {"free": True, "config": [ns, nwk], "name": f["name"], "script": script_lines(sc, 0), "reasons": f["reasons"],
+                   "codes": {"OPFAIL": Codes.OPFAIL, "OVERFLOW": Codes.OVERFLOW},
                    "log": f["run"]["raw"], "reproduced": "%d/%d" % (again, ntries),
                    "shrunk_script": script_lines(small, 0) if small is not sc else None,
                    "other_failures": [{"name": x["name"], "config": x["config"], "reasons": x["reasons"][:2]} for x in failures[1:4]]})
@@ -875,6 +950,10 @@ def replay_file(ctx, path, times=10):
     sc = parse_script(lines)
     bad = 0
     last = None
+    if rp.get("codes"):
+        Codes.OPFAIL, Codes.OVERFLOW = rp["codes"]["OPFAIL"], rp["codes"]["OVERFLOW"]
+    else:
+        run_batch(exe, [(0, ["R 0 1 1", "V 0 1 0", "T 0 0 1", "o status 0 0 0", "G"])], 1, 1)      # reads the codes from the harness banner
     try:
         print("# stored log: the acceptor on the stored trace")
         for rid, run in parse_runs(rp["log"]).items():
@@ -897,7 +976,8 @@ def replay_file(ctx, path, times=10):
     print("# failed in %d of %d runs" % (bad, times))
     if last:
         ctx.violation("replay", "C03: %s (%d of %d runs)" % (last[1][0], bad, times),
-                      {"free": True, "config": [ns, nwk], "script": lines, "reasons": last[1], "log": last[2]})
+                      {"free": True, "config": [ns, nwk], "script": lines, "reasons": last[1], "log": last[2],
+                       "codes": {"OPFAIL": Codes.OPFAIL, "OVERFLOW": Codes.OVERFLOW}})
 
 
 # ---------------------------------------------------------------- stand-alone entry point (this tier only)
@@ -920,7 +1000,7 @@ def main(argv):
         except core.BuildError as e:
             ctx.violation("build", "build failure: " + str(e)[-600:], {"error": str(e)[-3000:]}, no_input=True)
         fr = ctx.cov.get("free", {})
-        print("# free tier: %s" % json.dumps({k: fr.get(k) for k in ("runs", "calls", "overlap_pairs", "blocked_calls", "nb_failed", "overflow_rejected",
+        print("# free tier: %s" % json.dumps({k: fr.get(k) for k in ("runs", "aimed_runs", "calls", "overlap_pairs", "blocked_calls", "nb_failed", "overflow_rejected", "incrF_filled_for_waiters", "incrF_on_empty_kept_empty",
                                                                        "accepted_vars", "unknown_vars", "hangs", "rejected_runs", "wall_runs_s", "wall_acceptor_s")}))
         rc = ctx.finish()
     finally:
